@@ -1,0 +1,87 @@
+// Copyright (c) HashiCorp, Inc.
+// SPDX-License-Identifier: MPL-2.0
+
+//go:build verif
+
+package eventlogger
+
+import "sync/atomic"
+
+// This file only exists when building with the "verif" build tag. It provides
+// the observation points and read-only accessors used by the verification
+// harness; none of it is part of the library's API.
+
+// VerifHookFunc is called at the protocol steps of graph.process/doProcess.
+type VerifHookFunc func(point string, pid PipelineID, nid NodeID)
+
+var verifHook atomic.Pointer[VerifHookFunc]
+
+// SetVerifHook installs (or, with nil, removes) the hook.
+func SetVerifHook(f VerifHookFunc) {
+	if f == nil {
+		verifHook.Store(nil)
+		return
+	}
+	verifHook.Store(&f)
+}
+
+func verifPoint(point string, pid PipelineID, nid NodeID) {
+	if f := verifHook.Load(); f != nil {
+		(*f)(point, pid, nid)
+	}
+}
+
+// VerifNode describes a registered node.
+type VerifNode struct {
+	Node           Node
+	ReferenceCount int
+	Policy         RegistrationPolicy
+}
+
+// VerifPipeline describes a registered pipeline: its linked nodes in order.
+type VerifPipeline struct {
+	NodeIDs []NodeID
+	Nodes   []Node
+	Policy  RegistrationPolicy
+}
+
+// VerifGraph describes the graph of an event type.
+type VerifGraph struct {
+	Pipelines             map[PipelineID]VerifPipeline
+	SuccessThreshold      int
+	SuccessThresholdSinks int
+}
+
+// VerifDump returns a snapshot of the broker's registry.
+func (b *Broker) VerifDump() (map[NodeID]VerifNode, map[EventType]VerifGraph) {
+	b.lock.RLock()
+	defer b.lock.RUnlock()
+
+	nodes := make(map[NodeID]VerifNode, len(b.nodes))
+	for id, nu := range b.nodes {
+		nodes[id] = VerifNode{Node: nu.node, ReferenceCount: nu.referenceCount, Policy: nu.registrationPolicy}
+	}
+	graphs := make(map[EventType]VerifGraph, len(b.graphs))
+	for t, g := range b.graphs {
+		vg := VerifGraph{
+			Pipelines:             map[PipelineID]VerifPipeline{},
+			SuccessThreshold:      g.successThreshold,
+			SuccessThresholdSinks: g.successThresholdSinks,
+		}
+		g.roots.Range(func(pid PipelineID, rp *registeredPipeline) bool {
+			vp := VerifPipeline{Policy: rp.registrationPolicy}
+			for ln := rp.rootNode; ln != nil; {
+				vp.NodeIDs = append(vp.NodeIDs, ln.nodeID)
+				vp.Nodes = append(vp.Nodes, ln.node)
+				if len(ln.next) == 0 {
+					break
+				}
+				ln = ln.next[0]
+			}
+			vg.Pipelines[pid] = vp
+			return true
+		})
+		graphs[t] = vg
+	}
+	return nodes, graphs
+}
